@@ -26,8 +26,27 @@ var c15Callees = func() []func(func()) {
 	cs = append(cs, chaindeep.Callees()...)
 	cs = append(cs, chainplain.Callees()...)
 	cs = append(cs, func(next func()) { next() }, c15Local, c15T{}.m)
+	// frames of another package inlined between frames of this one (and
+	// between frames of a third): package X real, package Y inlined, package X real
+	cs = append(cs, c15ViaInlinedV2, c15ViaInlinedDeep, c15ViaInlinedGeneric, c15ViaTwoInlined)
 	return cs
 }()
+
+//go:noinline
+func c15ViaInlinedV2(next func()) { chainv2.Inlinable(func() { c15Local(next) }) }
+
+//go:noinline
+func c15ViaInlinedDeep(next func()) { chaindeep.Inlinable(next) }
+
+//go:noinline
+func c15ViaInlinedGeneric(next func()) {
+	chainplain.InlinableGeneric(next, func(f func()) { c15T{}.m(f) })
+}
+
+//go:noinline
+func c15ViaTwoInlined(next func()) {
+	chainv2.Inlinable(func() { chaindeep.Inlinable(func() { c15Local(next) }) })
+}
 
 //go:noinline
 func c15Local(next func()) { next() }
@@ -70,7 +89,21 @@ func c15Frames(pcs []uintptr) []runtime.Frame {
 func c15Program(r *verifrt.Rand) []byte {
 	n := verifrt.Pick(r, []int{0, 1, 2, 3, 5, 8, 13, 30, 60, 100})
 	p := make([]byte, n)
-	switch r.Intn(4) {
+	switch r.Intn(5) {
+	case 4: // deep recursion through callees with multi-byte names: truncation inside a character
+		n = verifrt.Pick(r, []int{60, 100, 140})
+		p = make([]byte, n)
+		perPkg := len(c15Callees) / 3 // (the three generated packages come first, same table each)
+		idx := []int{17, 18, 19}
+		for i := range p {
+			p[i] = byte(idx[r.Intn(len(idx))] + perPkg*0)
+		}
+		if r.Bool() {
+			b := byte(17 + 20*r.Intn(3))
+			for i := range p {
+				p[i] = b
+			}
+		}
 	case 0: // one callee repeated
 		b := byte(r.Intn(256))
 		for i := range p {
@@ -103,7 +136,7 @@ func TestVerifC15(t *testing.T) {
 func c15Stacks(t *testing.T) {
 	const check = "C15.stacks"
 	res := verifrt.NewResult(check)
-	res.Rule = "byte-coded call programs over 39 callees of three generated packages (import paths with dots, dashes, /v2 element, deep path) and the harness package: plain functions, value/pointer methods, generic functions and generic-type methods, closures, nested closures; depth 0..100 plus the harness frames, stack-counter depth 1..250, counter-name prefix length 1..60 (so that truncation cuts at every alignment). For each: two Incs from the same stack hit one counter; stacks that differ in any frame's (symbol, file, line, offset) have different names when untruncated; len <= 4096; truncation marker => uncompressed rendering > 4096, no marker => every frame has a line; every decoded line = full symbol name of that frame + well-formed location; the file decoder returns the expanded names. distinct = distinct PC slices; non-trivial = >= 3 frames"
+	res.Rule = "byte-coded call programs over 64 callees of three generated packages (import paths with dots, dashes, /v2 element, deep path) and the harness package: plain functions, value/pointer methods, generic functions and generic-type methods, closures, nested closures, functions of another package inlined between frames of this one, non-ASCII identifiers (so that truncation can fall inside a character); depth 0..100 plus the harness frames, stack-counter depth 1..250, counter-name prefix length 1..60 (so that truncation cuts at every alignment). For each: two Incs from the same stack hit one counter; stacks that differ in any frame's (symbol, file, line, offset) have different names when untruncated; len <= 4096; truncation marker => uncompressed rendering > 4096, no marker => every frame has a line; every decoded line = full symbol name of that frame + well-formed location; the file decoder returns the expanded names. distinct = distinct PC slices; non-trivial = >= 3 frames"
 	dir := c09SetDir()
 	defer os.RemoveAll(dir)
 	now := time.Date(2024, 5, 6, 7, 0, 0, 0, time.UTC)
@@ -187,6 +220,12 @@ func c15Stacks(t *testing.T) {
 		var kb strings.Builder
 		for _, fr := range frames {
 			fmt.Fprintf(&kb, "%s|%s|%d|%x;", fr.Function, fr.File, fr.Line, fr.PC-fr.Entry)
+			if fr.Func == nil && strings.Contains(fr.Function, "verifgen") {
+				res.Hit("inlined-frame-of-another-package")
+			}
+			if strings.Contains(fr.Function, "Юникод") || strings.Contains(fr.Function, "Метод") {
+				res.Hit("non-ascii-symbol")
+			}
 		}
 		key := kb.String()
 		// bounds and truncation
@@ -244,7 +283,7 @@ func c15Stacks(t *testing.T) {
 			res.Sample(map[string]any{"case": i, "prog": fmt.Sprint(prog), "depth": depth, "frames": len(frames), "name_bytes": len(name), "name_head": trunc40(strings.ReplaceAll(name, "\n", "⏎"))})
 		}
 	}
-	res.Require("truncated", "untruncated", "generic-frame", "ditto-used", "via-file", "stack-deeper-than-32")
+	res.Require("inlined-frame-of-another-package", "non-ascii-symbol", "truncated", "untruncated", "generic-frame", "ditto-used", "via-file", "stack-deeper-than-32")
 	if err := res.Write(); err != nil {
 		t.Fatal(err)
 	}
